@@ -209,7 +209,10 @@ template <class F> Segment c16Segment(long nQ, long nT) {
 
 //================================================================================================ C13 / C17 helpers
 template <class F> typename F::Rhs rhsPattern(long i, int v, int cycle) {
-    if constexpr (std::is_arithmetic<typename F::Rhs>::value) return typename F::Rhs((i * 7 + v * 3 + cycle * 11) % 1000 + 1);
+    // values that no narrower type can hold: full mantissa for floating results, beyond 2^53 for integer results
+    // (row 0 of floating results stays a small integer: the counting kernel accumulates into it and the sum must stay exact in any order)
+    if constexpr (std::is_floating_point<typename F::Rhs>::value) return typename F::Rhs(((i * 7 + v * 3 + cycle * 11) % 1000 + 1) * (v == 0 ? 1.0L : 1.000000123456789012L));
+    else if constexpr (std::is_arithmetic<typename F::Rhs>::value) return typename F::Rhs((typename F::Rhs(1) << (sizeof(typename F::Rhs) * 8 - 4)) + (i * 7 + v * 3 + cycle * 11) % 1000 + 1);
     else return typename F::Rhs();
 }
 
